@@ -201,7 +201,7 @@ def store_jobs(tier, rnd):
     if tier != "quick":
         configs = [("base", dict(MaxHist=4, VALS='{"u", "s1", "T"}'), 0), ("loops", dict(SCRIPT="ScriptLoop", MaxHist=2, NAMES='{"_x", "_X", "_y", "_z", "bad"}', MaxNames=2, MaxPkt=2, MaxLast=4, MaxId=2, PVALS='{"s1", "s2", "L"}', VALS='{"u", "s1", "L"}'), 1),
                    ("nest", dict(SCRIPT="ScriptNest", MaxHist=2, MaxId=3, CSLOTS="MCCSlots2"), 2)]
-    per_class = 1 if tier == "quick" else 3
+    per_class = 1 if tier == "quick" else 2
     jobs, covs = [], []
     for name, params, ci in configs:
         out, st, wd = run_tlc("MCStore", fault_cfg(params), "fault-" + name, timeout=3000)
